@@ -1,5 +1,7 @@
 import PelModel.Cli
 import PelProofs.CliDir
+import PelProofs.Top
+import PelProps.C07
 /-
   C08 — List, count and display-all agree on the same PELs in file-name order.
 -/
@@ -236,5 +238,120 @@ theorem splitext_simple (stem ext : Text) (hs : ∃ c ∈ stem, c ≠ 46) (he : 
   exact splitext_simple' stem ext hs he
 theorem splitext_no_dot (name : Text) (h : ∀ c ∈ name, c ≠ 46) : splitext name = [] := by
   exact splitext_no_dot' name h
+
+/-! ### the WHOLE command: `runMain` = `dispatch` followed by the mode it names, on a `World` (model: PelModel/Top.lean) -/
+
+/-- `mkConfig` does not look at the mode options -/
+theorem mkConfig_mode_irrelevant (t : List (Text × Nat)) (a : Args) (l n al : Bool) :
+    mkConfig t { a with list := l, count := n, all := al } = mkConfig t a := by
+  rw [mkConfig_eq, mkConfig_eq]
+
+/-- ★ three command lines that differ ONLY in which of `-n`, `-l`, `-a` is given (`a` has none of the three and no option of higher
+    priority; same `-p`, same selection switches, same `-r` / `-e`), run on the same world whose `-p` directory is a directory of well-formed
+    PELs with distinct entry ids: there is ONE sequence `S` of selected PELs (ascending file-name order) such that `-n` prints `|S|`, `-l`
+    prints one entry per element of `S` and `-a` prints one document per element of `S`, both in the order of `S` — reversed exactly when
+    `-r` is on the command line; all three end with status 0 and leave the world as it was -/
+theorem command_count_list_all_agree (env : Env) (a : Args) (w : World) (p : Text) (files : AFiles)
+    (hh : a.NoHigherMode) (hnd : a.NoDisplayMode) (hp : tv a.path = some p) (hd : w.pathIsDir = true) (hx : a.hex = false)
+    (hw : w.dir = dirOf files) (hg : GoodDir (env.withCfg (mkConfig severityGroupTable a)) files) :
+    let env' := env.withCfg (mkConfig severityGroupTable a)
+    let S := selectedIn (mkConfig severityGroupTable a).opts false files
+    let S' := if a.reverse then S.reverse else S
+    (runMain env { a with count := true } w).stdout = s "{\n    \"Number of PELs found\": " ++ natDec S.length ++ s "\n}\n" ∧
+    (runMain env { a with list := true } w).stdout =
+      prettyPrint 29 (dumps (.obj (S'.map fun np => (ox (fmtHex 2 np.2.ph.eid), J.obj (specSummary env' np.2))))) ++ nl ∧
+    (runMain env { a with all := true } w).stdout = listFraming (S'.map fun np => prettyPrint 34 (dumps (renderD env' np.2))) ∧
+    S'.length = S.length ∧
+    (runMain env { a with count := true } w).exit = 0 ∧ (runMain env { a with list := true } w).exit = 0 ∧
+    (runMain env { a with all := true } w).exit = 0 ∧
+    (runMain env { a with count := true } w).world = w ∧ (runMain env { a with list := true } w).world = w ∧
+    (runMain env { a with all := true } w).world = w := by
+  intro env' S S'
+  have hhex : (mkConfig severityGroupTable a).opts.hex = false := by
+    show (mkConfig severityGroupTable a).hex = false
+    rw [(Pel.mkConfig_eq severityGroupTable a)]; exact hx
+  have hrev : (mkConfig severityGroupTable a).opts.rev = a.reverse := by
+    show (mkConfig severityGroupTable a).rev = a.reverse
+    rw [(Pel.mkConfig_eq severityGroupTable a)]
+  have hS' : selectedIn (mkConfig severityGroupTable a).opts (mkConfig severityGroupTable a).opts.rev files = S' := by
+    rw [hrev]
+    show _ = if a.reverse = true then S.reverse else S
+    cases a.reverse
+    · rfl
+    · simp only [if_true]; exact reverse_is_reverse _ files
+  -- the three command lines reach the three modes
+  have hc : Chain (w.fsView { a with count := true }) { a with count := true } (.countMode p) false :=
+    chain_count (a := { a with count := true }) ⟨hh.file, hh.json, hh.pelID, hh.bmcID, hh.plid, hh.src, hh.srcExclude⟩ hp hd hnd.list rfl
+  have hl : Chain (w.fsView { a with list := true }) { a with list := true } (.listMode p) false :=
+    chain_list (a := { a with list := true }) ⟨hh.file, hh.json, hh.pelID, hh.bmcID, hh.plid, hh.src, hh.srcExclude⟩ hp hd rfl
+  have ha : Chain (w.fsView { a with all := true }) { a with all := true } (.allMode p) false :=
+    chain_all (a := { a with all := true }) ⟨hh.file, hh.json, hh.pelID, hh.bmcID, hh.plid, hh.src, hh.srcExclude⟩ hp hd hnd.list hnd.count rfl
+  have hcc : cfgOf { a with count := true } false = mkConfig severityGroupTable a := by
+    rw [cfgOf_false]; exact mkConfig_mode_irrelevant _ a a.list true a.all
+  have hcl : cfgOf { a with list := true } false = mkConfig severityGroupTable a := by
+    rw [cfgOf_false]; exact mkConfig_mode_irrelevant _ a true a.count a.all
+  have hca : cfgOf { a with all := true } false = mkConfig severityGroupTable a := by
+    rw [cfgOf_false]; exact mkConfig_mode_irrelevant _ a a.list a.count true
+  rw [runMain_of_chain hc, runMain_of_chain hl, runMain_of_chain ha, hcc, hcl, hca]
+  simp only [runAction, ofCli, hw]
+  refine ⟨count_eq env' _ files hg, ?_, ?_, ?_, rfl, rfl, rfl, by simp⟩
+  · rw [list_eq env' _ files hg hhex, hS']
+  · rw [all_eq env' _ files hg hhex, hS']
+  · show (if a.reverse = true then S.reverse else S).length = S.length
+    split
+    · exact List.length_reverse
+    · rfl
+
+/-- ★ (serves C07) which PELs a whole `-l` command line lists in a directory of well-formed PELs: with NO selection option exactly the
+    serviceable, customer-viewable ones among the files with the requested extension; with `-E` all of them — in file-name order (reversed
+    with `-r`), keyed by entry id -/
+theorem command_default_selection_lists (env : Env) (a : Args) (w : World) (p : Text) (files : AFiles)
+    (hh : a.NoHigherMode) (hp : tv a.path = some p) (hd : w.pathIsDir = true) (hl : a.list = true) (hx : a.hex = false)
+    (hw : w.dir = dirOf files) (hg : GoodDir (env.withCfg (mkConfig severityGroupTable a)) files) :
+    let env' := env.withCfg (mkConfig severityGroupTable a)
+    let o := (mkConfig severityGroupTable a).opts
+    (a.NoSelection → (runMain env a w).stdout =
+      prettyPrint 29 (dumps (.obj (((presented o o.rev files).filter
+        (fun np => specServiceable np.2.uh.sev np.2.uh.af && !specHidden np.2.uh.af)).map fun np =>
+          (ox (fmtHex 2 np.2.ph.eid), J.obj (specSummary env' np.2))))) ++ nl) ∧
+    (a.every = true → (runMain env a w).stdout =
+      prettyPrint 29 (dumps (.obj ((presented o o.rev files).map fun np =>
+          (ox (fmtHex 2 np.2.ph.eid), J.obj (specSummary env' np.2))))) ++ nl) := by
+  intro env' o
+  have hhex : o.hex = false := by
+    show (mkConfig severityGroupTable a).hex = false
+    rw [(Pel.mkConfig_eq severityGroupTable a)]; exact hx
+  obtain ⟨hrun, hdef, hevery⟩ := Pel.C07.command_default_selection env a w p hh hp hd hl
+  have hout : (runMain env a w).stdout = (listMode env' o (dirOf files)).stdout := by rw [hrun, hw]; rfl
+  rw [hout, list_eq env' o files hg hhex]
+  unfold selectedIn
+  constructor
+  · intro hs
+    rw [List.filter_congr (fun np _ => (hdef hs).2 np.2.uh.sev np.2.uh.af)]
+  · intro he
+    rw [List.filter_eq_self.2 (fun np _ => hevery he np.2.uh.sev np.2.uh.af)]
+
+/-! Non-vacuity: the hypotheses about the command line hold for `-p /pels -S Critical -e .pel -r`, and an empty directory is a `GoodDir`
+    (for directories with PELs `GoodDir` is the hypothesis of `count_eq` / `list_eq` / `all_eq`; `C01.demo_wf` is a well-formed PEL). -/
+example : ({ path := some (s "/pels"), severities := [s "Critical"], extension := some (s ".pel"), reverse := true } : Args).NoHigherMode ∧
+    ({ path := some (s "/pels"), severities := [s "Critical"], extension := some (s ".pel"), reverse := true } : Args).NoDisplayMode :=
+  ⟨⟨rfl, rfl, rfl, rfl, rfl, rfl, rfl⟩, ⟨rfl, rfl, rfl⟩⟩
+example (env : Env) : GoodDir env [] :=
+  ⟨fun _ h => (nomatch h), fun _ h => (nomatch h), fun _ h => (nomatch h), List.nodup_nil, List.nodup_nil⟩
+example : (runMain envDemo { path := some (s "/pels"), count := true } { wDemo with dir := [] }).stdout =
+    s "{\n    \"Number of PELs found\": 0\n}\n" ∧
+    (runMain envDemo { path := some (s "/pels"), list := true } { wDemo with dir := [] }).stdout = s "{}\n" ∧
+    (runMain envDemo { path := some (s "/pels"), all := true, reverse := true } { wDemo with dir := [] }).stdout = s "[\n]\n" := by decide
+
+-- with real PELs (`wPels`: a hidden PEL, an undecodable file, a selected PEL): `-n` says 1 and `-l` has one entry; with `-E` 2 and two entries,
+-- in file-name order (`a_…` before `b_…`), reversed by `-r`
+example : (runMain envDemo { path := some (s "/pels"), count := true } wPels).stdout = s "{\n    \"Number of PELs found\": 1\n}\n" ∧
+    (runMain envDemo { path := some (s "/pels"), count := true, every := true } wPels).stdout = s "{\n    \"Number of PELs found\": 2\n}\n" ∧
+    (runMain envDemo { path := some (s "/pels"), all := true, every := true, hex := true } wPels).stdout =
+      linesOut (pelHexDisplay pelDemo) ++ linesOut (pelHexDisplay pelHiddenDemo) ∧
+    (runMain envDemo { path := some (s "/pels"), all := true, every := true, hex := true, reverse := true } wPels).stdout =
+      linesOut (pelHexDisplay pelHiddenDemo) ++ linesOut (pelHexDisplay pelDemo) ∧
+    (runMain envDemo { path := some (s "/pels"), list := true, hex := true } wPels).stdout = linesOut (pelHexDisplay pelDemo) := by
+  decide +kernel
 
 end Pel.C08
